@@ -14,6 +14,8 @@ A *pipeline case* is a dict:
              that follows the fault plan of harness/impl/rawfault.py: short raw reads, raw read / seek calls that
              raise an errno or MemoryError — a read() then consumes bytes before it raises, as in production;
              the plan's bookkeeping (calls, fired, reads) is returned as obs['raw_fault']
+  late       None | {'files': [i, …], 'at_read': n}   these files are intact when the run starts; they get their state of
+             `disk` / `flips` when the reader makes its n-th read() call (it is then still inside an earlier file)
   hash_fault None | [[hasher name, n], …]   (the n-th sha1() call made by that hasher thread raises
              MemoryError inside HasherPool._handle_piece; n counts from 1; added for C01)
   max_steps
@@ -51,12 +53,15 @@ def build_tree(wd, c):
     for f, o in c.get('flips', []):
         flips.setdefault(f, []).append(o)
     disk = c.get('disk') or ['ok'] * len(files)
-    for i, (f, st) in enumerate(zip(files, disk)):
+    late = (c.get('late') or {}).get('files') or []
+
+    def apply(i):
+        f, st = files[i], disk[i]
         p = os.path.join(top, *f['path'])
         data = bytearray(orig[i])
         if st == 'missing':
             os.unlink(p)
-            continue
+            return
         if st != 'ok':
             n = int(st)
             data = bytearray((orig[i] + content.file_bytes(c['cseed'] + 1, i, max(0, n - len(orig[i]))))[:n])
@@ -71,6 +76,12 @@ def build_tree(wd, c):
         if st != 'ok' or i in flips or patched:
             with open(p, 'wb') as fh:
                 fh.write(bytes(data))
+    for i in range(len(files)):
+        if i not in late:
+            apply(i)
+    # files listed in c['late'] are intact when the run starts and get their state of c['disk'] / c['flips'] DURING the run
+    # (run_case: at the n-th read() call of the reader, which is still inside an earlier file)
+    build_tree.apply_late = lambda: [apply(i) for i in late]
     return files, orig, top
 
 
@@ -83,6 +94,9 @@ class _FaultyFile:
 
     def read(self, *a):
         self._plan['calls'] += 1
+        if self._plan.get('late_at') == self._plan['calls']:
+            self._plan['late']()
+            self._plan['late_done'] = True
         fa = self._plan['fail_at']
         if fa is not None and fa <= self._plan['calls'] < fa + self._plan.get('burst', 1):
             self._plan['fired'] += 1
@@ -103,6 +117,7 @@ def run_case(torf, wd, c):
     from torf import _generate as G
     from torf import _stream as S
     files, orig, top = build_tree(wd, c)
+    apply_late = build_tree.apply_late
     L = c['L']
     stream = b''.join(orig)
     want_pieces = b''.join(common.sha1(stream[i:i + L]) for i in range(0, len(stream), L))
@@ -128,6 +143,8 @@ def run_case(torf, wd, c):
     hash_plan = {'faults': [tuple(x) for x in (c.get('hash_fault') or [])], 'calls': {}, 'fired': []}
     plan = {'calls': 0, 'fail_at': c.get('read_fault'), 'fired': 0, 'burst': c.get('read_fault_burst', 1),
             'kind': c.get('read_fault_kind', 'oserror')}
+    if c.get('late'):
+        plan['late_at'], plan['late'] = c['late']['at_read'], apply_late
     gate_nows = []
 
     def clock():
@@ -150,7 +167,7 @@ def run_case(torf, wd, c):
                 raise MemoryError('injected: out of memory in sha1()')
             return saved_sha1(*a, **k)
         G.sha1 = sha1_proxy
-    if c.get('read_fault') is not None or c.get('count_reads'):
+    if c.get('read_fault') is not None or c.get('count_reads') or c.get('late'):
         import builtins
         S.open = lambda p, mode='r', *a, **k: _FaultyFile(builtins.open(p, mode, *a, **k), plan)
     raw_plan = None
@@ -220,7 +237,7 @@ def run_case(torf, wd, c):
         'pieces_stored': t.metainfo['info'].get('pieces') if c['mode'] == 'generate' else None,
         'want_pieces': want_pieces,
         'total': len(want_pieces) // 20,
-        'read_calls': plan['calls'], 'fault_fired': plan['fired'],
+        'read_calls': plan['calls'], 'fault_fired': plan['fired'], 'late_done': plan.get('late_done', False),
         'hash_fault_fired': hash_plan['fired'],
         'raw_fault': raw_plan,
         'gate_nows': gate_nows,
